@@ -4,6 +4,7 @@ import H3Model.EdgeVertex
 import H3Model.Compact
 import H3Model.Hex2d
 import H3Model.Poly
+import H3Model.DiskSpec
 
 namespace H3.Ops
 open H3 H3.Proto
@@ -188,6 +189,12 @@ def opsTrav (op : String) (a : List String) : Option String :=
     match latLngToCellArgs r la.isFinite ln.isFinite with
     | some e => pure ("err " ++ toString e.code)
     | none => pure "skip"
+  | "diskmap", [h, k] => do
+    -- map-level algorithm (the subject of the BFS theorem), canonical output: sorted (cell, distance) pairs
+    let h ← parseH h; let k ← k.toNat?
+    let d := diskL cellNeighbors k h
+    let sorted := (d.toArray.qsort (fun a b => a.1.toNat < b.1.toNat)).toList
+    pure ("ok " ++ toString sorted.length ++ sorted.foldl (fun acc p => acc ++ " " ++ showH p.1 ++ " " ++ toString p.2) "")
   | "polyflags", [f] => do
     let f ← f.toNat?
     match validatePolygonFlags (BitVec.ofNat 32 f) with
